@@ -4,6 +4,7 @@ simkit::interpose_getrandom!();
 
 mod core;
 mod core2;
+mod core3;
 mod net;
 mod node;
 mod probe;
@@ -12,5 +13,6 @@ fn main() {
     let mut checks = vec![];
     checks.extend(core::checks());
     checks.extend(core2::checks());
+    checks.extend(core3::checks());
     simkit::main_with(checks);
 }
